@@ -28,6 +28,7 @@
  *   output per op: "<status>,<hex of addrxlat_ctx_get_err() or ->"  (void calls print status "v")
  */
 #include "common.h"
+#include <unistd.h>
 #include <libkdumpfile/addrxlat.h>
 
 static addrxlat_ctx_t *ctx;
@@ -217,6 +218,7 @@ int main(int argc, char **argv)
 	if (!f) { perror(argv[1]); return 2; }
 	setvbuf(stdout, NULL, _IOLBF, 0);
 	while ((line = verif_getline(f))) {
+		alarm(5);	/* a case takes milliseconds; a spinning library is killed by SIGALRM */
 		char *save = NULL, *tok;
 		addrxlat_cb_t *cb;
 		addrxlat_meth_t meth;
